@@ -243,6 +243,12 @@ fn check_packet(rep_: &Rep, app: &[L], bytes: &[u8], class: u8, method: u16, ear
     // (2) the application's own attributes: one per type, first-insertion order, last value
     let mut expected_app: Vec<(u16, Vec<u8>)> = vec![];
     for a in app {
+        // `remove::<T>()` of the application (world::remove_op): the type leaves the collection; a later add appends it
+        if let L::Unknown(super::world::REMOVE_MARK, Some(t)) = a {
+            let rt = u16::from_be_bytes([t[0], t[1]]);
+            expected_app.retain(|x| x.0 != rt);
+            continue;
+        }
         let ty = a.type_code();
         if tail_types.contains(&ty) || owned.contains(&ty) {
             continue;
@@ -346,6 +352,26 @@ pub fn run(ctx: &RunCtx) -> i32 {
         }
         lists.extend(next.clone());
         frontier = next;
+    }
+    // collections built by add AND remove (round 14): three ordinary attributes of distinct types in every order, one of them
+    // removed, then one of six values added (a replacement of a remaining one, the removed type again, or the other SOFTWARE)
+    {
+        let base = [L::Software("a".into()), L::Priority(7), L::UserName("someone-else".into()), L::Realm("other.example".into()), L::Nonce("stale".into())];
+        let adds = [L::Software("b".into()), L::Priority(9), L::UserName("x".into()), L::Realm("r2".into()), L::Nonce("n2".into()), L::Software("a".into())];
+        for i in 0..base.len() {
+            for j in 0..base.len() {
+                for k in 0..base.len() {
+                    if i == j || j == k || i == k {
+                        continue;
+                    }
+                    for rm in [i, j, k] {
+                        for add in &adds {
+                            lists.push(vec![base[i].clone(), base[j].clone(), base[k].clone(), super::world::remove_op(base[rm].type_code()), add.clone()]);
+                        }
+                    }
+                }
+            }
+        }
     }
     let n_lists = lists.len();
     let apps = Arc::new(lists);
@@ -597,7 +623,7 @@ pub fn run(ctx: &RunCtx) -> i32 {
         rep,
         Finish {
             level: "model_checking",
-            rule: format!("{} application attribute lists (every sequence of length <= {} over a 12-entry alphabet: two SOFTWARE values, PRIORITY, and pre-populated USERNAME / REALM / NONCE / USERHASH / PASSWORD-ALGORITHM / PASSWORD-ALGORITHMS / MESSAGE-INTEGRITY / MESSAGE-INTEGRITY-SHA256 / FINGERPRINT) x {} credential-state representatives (18 states reached by replaying short histories on the real client: no mechanism; short-term unlearned / still unlearned after a refused MI / SHA256 response (same attribute kinds as the unlearned client) / learned MI / learned SHA256 / configured MI / SHA256; long-term first request / retry after plain 401 / retry after cookie 401 with anonymity and algorithms / the same with unassigned feature bits set in the cookie / subsequent MD5 / subsequent SHA256 / subsequent SHA256 after a refused 438 (wrong integrity: nonce and attribute kinds as before it) / retry after 438 / retry after a second 401 naming the realm in another letter case / subsequent request after a second 401 for another realm; each x fingerprint on/off x both transports; the credential states again with a 70-byte user name / 129-byte password and with a non-ASCII user name / a password that OpaqueString enforcement rewrites) x {{request, indication}} (methods 0x003 and 0xFFF on a subset in the quick tier); every emitted packet is parsed by the independent TLV reader: class / method / fresh id, application attributes first (one per type, first-insertion position, last value), then only the mechanism's credential attributes with the client's (not the application's) values, then at most one MI, SHA256, FINGERPRINT in that order, each verifying under the configured credentials by independent HMAC / CRC, no type twice, FINGERPRINT last when configured; retransmissions along timer runs are byte-identical; clients built with the optional builder calls in each of the six orders (limits 1 and 10) behave alike in every credential state; the largest packets: in every credential state, requests and indications carrying an UNKNOWN-ATTRIBUTES of n codes (alone or after a 4-byte SOFTWARE) with n swept so that the packet size runs through the last 48 bytes up to the largest STUN message (65,552 bytes) and beyond, into a 70,000-byte buffer - emitted whole and well-formed up to 65,552 bytes, refused without a packet beyond", n_lists, max_len, n_reps),
+            rule: format!("{} application attribute lists (every sequence of length <= {} over a 12-entry alphabet, plus 1,080 lists built by add and remove - three ordinary attributes of distinct types in every order, one removed, one of six values added: two SOFTWARE values, PRIORITY, and pre-populated USERNAME / REALM / NONCE / USERHASH / PASSWORD-ALGORITHM / PASSWORD-ALGORITHMS / MESSAGE-INTEGRITY / MESSAGE-INTEGRITY-SHA256 / FINGERPRINT) x {} credential-state representatives (18 states reached by replaying short histories on the real client: no mechanism; short-term unlearned / still unlearned after a refused MI / SHA256 response (same attribute kinds as the unlearned client) / learned MI / learned SHA256 / configured MI / SHA256; long-term first request / retry after plain 401 / retry after cookie 401 with anonymity and algorithms / the same with unassigned feature bits set in the cookie / subsequent MD5 / subsequent SHA256 / subsequent SHA256 after a refused 438 (wrong integrity: nonce and attribute kinds as before it) / retry after 438 / retry after a second 401 naming the realm in another letter case / subsequent request after a second 401 for another realm; each x fingerprint on/off x both transports; the credential states again with a 70-byte user name / 129-byte password and with a non-ASCII user name / a password that OpaqueString enforcement rewrites) x {{request, indication}} (methods 0x003 and 0xFFF on a subset in the quick tier); every emitted packet is parsed by the independent TLV reader: class / method / fresh id, application attributes first (one per type, first-insertion position, last value), then only the mechanism's credential attributes with the client's (not the application's) values, then at most one MI, SHA256, FINGERPRINT in that order, each verifying under the configured credentials by independent HMAC / CRC, no type twice, FINGERPRINT last when configured; retransmissions along timer runs are byte-identical; clients built with the optional builder calls in each of the six orders (limits 1 and 10) behave alike in every credential state; the largest packets: in every credential state, requests and indications carrying an UNKNOWN-ATTRIBUTES of n codes (alone or after a 4-byte SOFTWARE) with n swept so that the packet size runs through the last 48 bytes up to the largest STUN message (65,552 bytes) and beyond, into a 70,000-byte buffer - emitted whole and well-formed up to 65,552 bytes, refused without a packet beyond", n_lists, max_len, n_reps),
             assumptions: vec!["which credential attributes each long-term state requires is C08's question; C13 checks form, replacement and verification".into()],
             required_symbols: vec!["no-mechanism", "short-term/unlearned", "short-term/learned-SHA256", "long-term/first-request", "long-term/retry-after-401-cookie", "long-term/subsequent-SHA256", "long-term/retry-after-438", "long-term-indication-refused", "retransmission-identical", "client-builder-routes", "largest-packets", "beyond-the-largest-packet-refused"],
             min_outcomes: 12,
